@@ -151,7 +151,12 @@ func planAggregators(script any, init shared.RequestProcessor) (shared.RequestPr
 		if err != nil {
 			return nil, err
 		}
-		proc = planByWithout(proc, script.ByOrWithoutPrefix, script.ByOrWithoutSuffix)
+		byWithout := []*logql_parser.ByOrWithout{script.ByOrWithoutPrefix, script.ByOrWithoutSuffix}
+		if script.ByOrWithoutPrefix == nil && script.ByOrWithoutSuffix == nil {
+			// no grouping clause: every series goes into one series without labels, as "by ()"
+			byWithout = []*logql_parser.ByOrWithout{{Fn: "by"}}
+		}
+		proc = planByWithout(proc, byWithout...)
 		return maybeComparison(&AggOpPlanner{
 			AggregatorPlanner: AggregatorPlanner{
 				GenericPlanner: GenericPlanner{proc},
